@@ -167,7 +167,7 @@ def run(prog, rep, tier):
                         why.append('bits outside %#x may be set' % m)
                 rep.check(ok, 'R1-physical-range', key, site, '%s: %s' % (key, '; '.join(why)),
                           sample={'field': key, 'abstract_value': A.show_val(x)[:60], 'constraint': {k: v for k, v in c.items() if not k.startswith('note')}}
-                          if len(rep.samples) < 10 else None)
+                          )
     # ---- R2
     rep.floor('float fields seen', len(floats), 20)
     for (tname, fname), (lo, hi, nan, site) in sorted(floats.items()):
